@@ -11,6 +11,7 @@ import (
 	"go.starlark.net/starlarkstruct"
 	"go.starlark.net/syntax"
 	"pgregory.net/rapid"
+	"verif/harness/gen"
 	"verif/harness/host"
 	"verif/harness/vk"
 )
@@ -28,190 +29,11 @@ func TestMain(m *testing.M) {
 	vk.Main(m, "C04")
 }
 
-type Case struct {
-	Src  string `json:"src"`
-	Set  bool   `json:"set"`
-	Fail bool   `json:"fail"` // the module contains an injected failure
-}
-
 // ---------------------------------------------------------------- generator
 
-type gvar struct {
-	name string
-	kind string // list dict set tuple struct rec
-}
+type Case = gen.Module
 
-func genModule(t *rapid.T) Case {
-	c := Case{Set: vk.Chance(t, 0.6)}
-	var sb strings.Builder
-	var vars []gvar
-	n := 0
-	fresh := func(p string) string { n++; return fmt.Sprintf("%s%d", p, n) }
-	line := func(format string, args ...any) { fmt.Fprintf(&sb, format+"\n", args...) }
-	of := func(kinds ...string) []gvar {
-		var out []gvar
-		for _, v := range vars {
-			for _, k := range kinds {
-				if v.kind == k {
-					out = append(out, v)
-				}
-			}
-		}
-		return out
-	}
-	atom := func() string {
-		return []string{"1", "2", "\"s\"", "\"a-long-string-atom\"", "None", "True", "(3, 4)"}[vk.Uniform(t, 7)]
-	}
-	val := func() string {
-		if len(vars) > 0 && vk.Chance(t, 0.55) {
-			return vars[vk.Uniform(t, len(vars))].name
-		}
-		switch vk.Uniform(t, 6) {
-		case 0:
-			return "[" + atom() + "]"
-		case 1:
-			return "{\"n\": " + atom() + "}"
-		case 2:
-			return "HOSTLIST"
-		}
-		return atom()
-	}
-	hashable := func() string {
-		// a function is hashable and may hold mutable state (defaults, closure variables)
-		if fs := of("func"); len(fs) > 0 && vk.Chance(t, 0.3) {
-			f := fs[vk.Uniform(t, len(fs))].name
-			return []string{f, "(" + f + ", 1)", "(lambda x = [1, [2]]: x)"}[vk.Uniform(t, 3)]
-		}
-		return []string{"\"k\"", "\"a-rather-long-key\"", "7", "(1, (2, 3))", "struct(a = 1, b = (2,))", "(\"x\", struct(z = 0))"}[vk.Uniform(t, 6)]
-	}
-	nst := 4 + vk.Uniform(t, 14)
-	failAt := -1
-	if vk.Chance(t, 0.3) {
-		failAt = vk.Uniform(t, nst)
-		c.Fail = true
-	}
-	nm := 0
-	for i := 0; i < nst; i++ {
-		if i == failAt {
-			line("boom_%d = 1 // 0", i)
-		}
-		switch vk.Uniform(t, 17) {
-		case 0, 1:
-			v := fresh("v")
-			line("%s = [%s, %s]", v, val(), val())
-			vars = append(vars, gvar{v, "list"})
-		case 2:
-			v := fresh("v")
-			line("%s = {%s: %s, \"z\": %s}", v, hashable(), val(), val())
-			vars = append(vars, gvar{v, "dict"})
-		case 3:
-			v := fresh("v")
-			line("%s = (%s, [%s])", v, val(), val())
-			vars = append(vars, gvar{v, "tuple"})
-		case 4:
-			if c.Set {
-				v := fresh("v")
-				line("%s = set([%s, 5, \"e\"])", v, hashable())
-				vars = append(vars, gvar{v, "set"})
-			}
-		case 5:
-			v := fresh("v")
-			line("%s = struct(f = %s, g = {\"x\": [%s]})", v, val(), val())
-			vars = append(vars, gvar{v, "struct"})
-		case 6:
-			v := fresh("v")
-			line("%s = rec(a = %s, l = [%s])", v, val(), val())
-			vars = append(vars, gvar{v, "rec"})
-		case 7: // sharing and cycles
-			if ls := of("list"); len(ls) > 0 {
-				line("%s.append(%s)", ls[vk.Uniform(t, len(ls))].name, val())
-			}
-		case 8:
-			if ds := of("dict"); len(ds) > 0 {
-				line("%s[%s] = %s", ds[vk.Uniform(t, len(ds))].name, hashable(), val())
-			}
-		case 9:
-			f := fresh("f")
-			line("def %s(p = %s, q = [%s], *, k = {\"d\": %s}):", f, val(), val(), val())
-			line("    return p")
-			vars = append(vars, gvar{f, "func"})
-		case 10:
-			mk, cvar := fresh("mk"), fresh("c")
-			line("def %s(arg):", mk)
-			line("    h = [%s, arg]", val())
-			line("    hd = {\"h\": h}")
-			line("    hs = h")
-			line("    def inner(x = None):")
-			line("        return (h, hd, hs)")
-			line("    hs = [h]")
-			line("    return inner")
-			line("%s = %s(%s)", cvar, mk, val())
-			vars = append(vars, gvar{cvar, "func"})
-		case 11:
-			v := fresh("lam")
-			line("%s = [lambda: w for w in [%s, [%s]]]", v, val(), val())
-			vars = append(vars, gvar{v, "list"})
-		case 12:
-			if ls := of("list", "dict", "set"); len(ls) > 0 {
-				x := ls[vk.Uniform(t, len(ls))]
-				meth := map[string][]string{"list": {"append", "extend", "pop"}, "dict": {"update", "setdefault", "clear"}, "set": {"add", "discard"}}[x.kind]
-				b := fresh("bm")
-				if vk.Chance(t, 0.5) {
-					line("%s = %s.%s", b, x.name, meth[vk.Uniform(t, len(meth))])
-				} else {
-					line("%s = [%s.%s, (%s.%s,)]", b, x.name, meth[0], x.name, meth[len(meth)-1])
-				}
-				vars = append(vars, gvar{b, "other"})
-			}
-		case 13: // kept out of the globals
-			switch vk.Uniform(t, 3) {
-			case 0:
-				line("keep([%s, [0]])", atom())
-			case 1:
-				f := fresh("tmp")
-				line("def %s():", f)
-				line("    loc = {\"kept\": [1]}")
-				line("    keep(loc)")
-				line("    keep(loc[\"kept\"])")
-				line("    return 0")
-				line("%s_r = %s()", f, f)
-			case 2:
-				v := fresh("v")
-				line("%s = [[7], [8]]", v)
-				line("keep(%s.pop())", v)
-				vars = append(vars, gvar{v, "list"})
-			}
-		case 14: // the module's own mutators, called by the host afterwards
-			if ls := of("list", "dict", "rec"); len(ls) > 0 {
-				x := ls[vk.Uniform(t, len(ls))]
-				nm++
-				switch x.kind {
-				case "list":
-					body := []string{"%s.append(1)", "%s += [1]", "%s.extend([2])", "%s.insert(0, 3)"}[vk.Uniform(t, 4)]
-					line("def m_%d():", nm)
-					line("    "+body, x.name)
-				case "dict":
-					body := []string{"%s[\"new-key\"] = 1", "%s.update([(\"nk\", 1)])", "%s |= {\"nk2\": 2}", "%s.setdefault(\"nk3\", 3)"}[vk.Uniform(t, 4)]
-					line("def m_%d():", nm)
-					line("    "+body, x.name)
-				case "rec":
-					line("def m_%d():", nm)
-					line("    %s.a = 99", x.name)
-				}
-			}
-		case 15:
-			if rs := of("rec"); len(rs) > 0 {
-				line("%s.extra = %s", rs[vk.Uniform(t, len(rs))].name, val())
-			}
-		case 16:
-			v := fresh("v")
-			line("%s = {(1, 2): [%s], struct(q = (1,)): {\"in\": %s}}", v, val(), val())
-			vars = append(vars, gvar{v, "dict"})
-		}
-	}
-	c.Src = sb.String()
-	return c
-}
+func genModule(t *rapid.T) Case { return gen.GenModule(t, false) }
 
 // ---------------------------------------------------------------- traversal
 
@@ -305,7 +127,7 @@ func walk(g starlark.StringDict) (nodes []node, seen map[any]bool) {
 
 type mutator struct {
 	name  string
-	kinds string // types it applies to
+	kinds string                      // types it applies to
 	would func(v starlark.Value) bool // would it change an unfrozen value of this shape?
 	do    func(th *starlark.Thread, v starlark.Value) error
 }
@@ -331,9 +153,9 @@ func init() {
 	probes = g
 }
 
-func length(v starlark.Value) int { return starlark.Len(v) }
+func length(v starlark.Value) int    { return starlark.Len(v) }
 func nonEmpty(v starlark.Value) bool { return length(v) > 0 }
-func anyShape(starlark.Value) bool  { return true }
+func anyShape(starlark.Value) bool   { return true }
 
 func meth(name string, args ...starlark.Value) func(*starlark.Thread, starlark.Value) error {
 	return func(th *starlark.Thread, v starlark.Value) error {
@@ -383,15 +205,23 @@ var mutators = []mutator{
 	{"d[k]=", "dict", anyShape, probe("p_setkey")},
 	{"d[old]=", "dict", nonEmpty, func(_ *starlark.Thread, v starlark.Value) error { return v.(*starlark.Dict).SetKey(firstElem(v), mut) }},
 	{"|=", "dict", anyShape, probe("p_ior")},
-	{"Dict.SetKey", "dict", anyShape, func(_ *starlark.Thread, v starlark.Value) error { return v.(*starlark.Dict).SetKey(starlark.String("MUT-KEY"), mut) }},
-	{"Dict.Delete", "dict", nonEmpty, func(_ *starlark.Thread, v starlark.Value) error { _, _, err := v.(*starlark.Dict).Delete(firstElem(v)); return err }},
+	{"Dict.SetKey", "dict", anyShape, func(_ *starlark.Thread, v starlark.Value) error {
+		return v.(*starlark.Dict).SetKey(starlark.String("MUT-KEY"), mut)
+	}},
+	{"Dict.Delete", "dict", nonEmpty, func(_ *starlark.Thread, v starlark.Value) error {
+		_, _, err := v.(*starlark.Dict).Delete(firstElem(v))
+		return err
+	}},
 	{"Dict.Clear", "dict", nonEmpty, func(_ *starlark.Thread, v starlark.Value) error { return v.(*starlark.Dict).Clear() }},
 
 	{"add", "set", anyShape, meth("add", mut)},
 	{"discard-first", "set", nonEmpty, func(th *starlark.Thread, v starlark.Value) error { return meth("discard", firstElem(v))(th, v) }},
 	{"set.update", "set", anyShape, meth("update", starlark.NewList([]starlark.Value{mut}))},
 	{"Set.Insert", "set", anyShape, func(_ *starlark.Thread, v starlark.Value) error { return v.(*starlark.Set).Insert(mut) }},
-	{"Set.Delete", "set", nonEmpty, func(_ *starlark.Thread, v starlark.Value) error { _, err := v.(*starlark.Set).Delete(firstElem(v)); return err }},
+	{"Set.Delete", "set", nonEmpty, func(_ *starlark.Thread, v starlark.Value) error {
+		_, err := v.(*starlark.Set).Delete(firstElem(v))
+		return err
+	}},
 	{"Set.Clear", "set", nonEmpty, func(_ *starlark.Thread, v starlark.Value) error { return v.(*starlark.Set).Clear() }},
 
 	{"x.a=", "rec", anyShape, probe("p_setfield")},
